@@ -67,6 +67,15 @@ class FakeSock:
         return self.remote
 
     def setsockopt(self, *a):
+        # what Linux accepts for the options the library sets (tcp(7)): keep-alive idle / interval 1..32767 s, probe count
+        # 1..127; anything else is EINVAL - an environment answer like any other
+        import socket as _s
+        if len(a) == 3 and a[0] == _s.IPPROTO_TCP and isinstance(a[2], int):
+            lim = {getattr(_s, 'TCP_KEEPIDLE', -1): 32767, getattr(_s, 'TCP_KEEPINTVL', -2): 32767, getattr(_s, 'TCP_KEEPCNT', -3): 127}.get(a[1])
+            if lim is not None and not 1 <= a[2] <= lim:
+                raise OSError(errno.EINVAL, 'Invalid argument')
+        if len(a) == 3 and not isinstance(a[2], (int, bytes, bytearray)):
+            raise TypeError('a bytes-like object is required')
         self.opts.append(a)
 
     def getsockopt(self, *a):
